@@ -279,10 +279,26 @@ pub fn session_async(rt: &tokio::runtime::Runtime, fr: &Frames, idx: &RepIndex, 
     (trace, off)
 }
 
+/// version texts LFS has sent or can send (number, letter, optional revision), up to the full 8 bytes of the field
+pub const GOOD_VERSION_TEXTS: [&str; 9] = ["0.7F", "0.7E1234", "0.7D0", "0.6V", "0.7A12", "0.5Z34", "0.7E15", "0.04K", "0.6K999"];
 pub fn is_transient_tok(t: &str) -> bool { t.starts_with("IO") || t == "TO" }
 
 /// the C05/C07/C09 oracle on one implementation trace: None = holds
 pub fn session_oracle(fr: &Frames, verify: bool, evs: &[REv], trace: &[String]) -> Option<String> {
+    // what counts as a keep-alive / a version packet is decided by the bytes (type 3, request id 0, sub-type 0 / type 2), not by
+    // what the decoder makes of them
+    for (i, f) in fr.frames.iter().enumerate() {
+        let is_ka_bytes = f.len() >= 4 && f[1] == 3 && f[2] == 0 && f[3] == 0; // bytes after the third inside an over-long TINY frame are ignored by every decoder
+        if (fr.class[i] == Class::Keep) != is_ka_bytes { return Some(format!("frame {} is {}treated as a keep-alive (TINY_NONE, request id 0)", hex(f), if is_ka_bytes { "not " } else { "" })); }
+        if matches!(fr.class[i], Class::Ver(_)) && f[1] != 2 { return Some(format!("frame {} of type {} is treated as a version packet", hex(f), f[1])); }
+        // an IS_VER frame (type 2, 20 bytes) whose 8-byte version text is a plain LFS version is a version packet reporting byte 18
+        if f.len() == 20 && f[1] == 2 {
+            let txt: Vec<u8> = f[4..12].iter().copied().take_while(|b| *b != 0).collect();
+            if f[4..12].iter().skip(txt.len()).all(|b| *b == 0) && GOOD_VERSION_TEXTS.iter().any(|t| t.as_bytes() == &txt[..]) && fr.class[i] != Class::Ver(f[18]) {
+                return Some(format!("IS_VER frame {} (version text {:?}, InSim version {}) is classified {:?}", hex(f), String::from_utf8_lossy(&txt), f[18], fr.class[i]));
+            }
+        }
+    }
     let got: Vec<&String> = trace.iter().filter(|t| !is_transient_tok(t)).collect();
     let want = fr.expected(verify);
     if got.len() != want.len() || got.iter().zip(want.iter()).any(|(a, b)| *a != b) {
@@ -318,6 +334,7 @@ pub fn frame_pool(rng: &mut Rng, compressed: bool) -> Vec<Vec<u8>> {
     for subt in 0..32u8 { for reqi in [0u8, 1, 255] { v.push(raw_frame(compressed, 3, reqi, &[subt])); } }
     if let Some(ver) = defaults.iter().find(|f| f[1] == 2) {
         for ins in [0u8, 1, 8, 9, 10, 255] { let mut f = ver.clone(); let n = f.len(); f[n - 2] = ins; f[4] = b'0'; f[5] = b'.'; f[6] = b'7'; f[7] = b'F'; v.push(f); }
+        for (k, t) in GOOD_VERSION_TEXTS.iter().enumerate() { let mut f = ver.clone(); let n = f.len(); f[n - 2] = [9u8, 8, 10][k % 3]; for j in 0..8 { f[4 + j] = *t.as_bytes().get(j).unwrap_or(&0); } v.push(f); }
     }
     for d in &defaults { for _ in 0..2 { let mut f = d.clone(); if f.len() > 3 { let i = 3 + rng.below((f.len() - 3) as u64) as usize; f[i] = rng.byte(); } v.push(f); } }
     for ty in [0u8, 68, 100, 200, 249] { let n = rng.range(0, 7) as usize; let r = rng.bytes(1 + 4 * n); v.push(raw_frame(compressed, ty, rng.byte(), &r)); }
